@@ -207,3 +207,7 @@ where
 {
     writer.write_all(&EOF)
 }
+
+#[cfg(noodles_verif)]
+#[doc(hidden)]
+pub use self::block::itf8_size_of as __verif_itf8_size_of;
